@@ -133,12 +133,17 @@ prop("C04", [
     dict(engine="verus", unit="dnsreply", fns=["DnsListenerHandler::prepare_to_send", "run_udp_reply", "run_tcp_reply", "DnsListenerHandler::recv_in_query",
                                                "DnsListenerHandler::create_in_error", "DnsListenerHandler::create_in_reply", "DnsListenerHandler::build_dns_message"]),
     dict(engine="verus", unit="acl", fns=["DnsAclHandler::handle_query"]),
+    dict(engine="verus", unit="router", fns=["DnsRouteHandler::handle_query"]),
+    dict(engine="verus", unit="cache", fns=["CacheHandler::handle_query", "CacheHandler::get_entry", "CacheHandler::insert_cache_entry", "clone_with_ttl_decrement_out_reply", "clone_out_reply"]),
+    dict(engine="verus", unit="outq", fns=["OutQuery::handle_query", "OutQuery::handle_query_internal", "TcpNameserver::handle_reply", "TcpNameserver::send_tcp_reply", "udp_decode"]),
     dict(engine="verus", unit="dnsparse", fns=["PktParser::get_dns", "PktParser::get_domain", "PktParser::get_domain_into", "PktParser::get_rr", "PktParser::get_rdata"]),
 ], explanation="size-limited serialiser contract (length <= limit for every message the decoder can produce: names <= 255 octets); per-transport limit and TCP framing as emission-point preconditions; advertised size floor 512 in the decoder",
     assumptions=["push_compressed_domain (LinkedList dictionary, outside Verus) appends at least one and at most labels+1 octets: assumed contract, checked bounded by the Kani set dns_compress (exact output lengths asserted)",
                  "what the handler chain behind the listener returns is a decoded message or one of the client-facing errors (chain_ok, stub of DnsAclHandler::handle_query in unit dnsreply): "
                  "proved for the decoder (any message of <= 65536 octets decodes to one the encoder accepts: names <= 255 octets, >= 11 octets per record so the 16-bit counts fit), "
-                 "for the listener (recv_in_query, create_in_reply, create_in_error: proved) and as pass-through for the ACL layer; the router / cache / upstream layers in between are NOT yet chained (their units prove their own clauses)"])
+                 "for the listener (recv_in_query, create_in_reply, create_in_error), pass-through for the ACL layer, the router (answers come from the resolver below), the cache (map invariant: stored answers are accepted by the encoder; ageing preserves that) "
+                 "and the upstream layer (both decode sites read at most 65536 octets; handle_query maps every error to OutReply). Each layer restates the contract of the one below on a stub: the composition is by matching those restatements, "
+                 "not by one whole-program proof; the tokio channels between the upstream TCP connection task and the waiting query are assumed to deliver what was sent"])
 
 prop("C05", [
     dict(engine="verus", unit="dnsparse"),
@@ -154,7 +159,8 @@ prop("C05", [
     # the listener around the decoders: the four unreachable!() arms of create_in_error, the unwraps of the reply paths
     dict(engine="verus", unit="dnsreply", fns=["DnsListenerHandler::recv_in_query", "DnsListenerHandler::create_in_error", "DnsListenerHandler::create_in_reply",
                                                "DnsListenerHandler::build_dns_message", "run_udp_reply", "run_tcp_reply"]),
-    dict(engine="verus", unit="outq", fns=["TcpNameserver::send_tcp_query", "TcpNameserver::send_tcp_reply", "create_outquery"]),
+    dict(engine="verus", unit="outq", fns=["TcpNameserver::send_tcp_query", "TcpNameserver::send_tcp_reply", "create_outquery", "TcpNameserver::handle_reply", "udp_decode",
+                                           "OutQuery::handle_query_internal", "OutQuery::handle_query"]),
     dict(engine="kani", sets=["net_subnet", "dns_ttl"]),
 ], explanation="no-panic / no-overflow / in-bounds / termination of the network-facing decoders and of the handlers around them, for all byte strings of all lengths",
     assumptions=["async handlers are verified as a single task; process-level liveness ('still answers the next request') is not decided, only its in-process cause (a panic)"])
